@@ -10,6 +10,7 @@
 import json
 import os
 import random
+import shutil
 import time
 from concurrent.futures import ThreadPoolExecutor
 
@@ -301,8 +302,6 @@ def count_small(chk, tracefile):
             chk.distinct_keys.add(hash((ev["e"], ev.get("ret"), tuple(sl), tuple(ev["mru"]), ev["ctr"][2])))
         elif ev["e"] == "Glyphs":
             chk.extra["glyph_drawings"] = chk.extra.get("glyph_drawings", 0) + 1
-            if ev.get("a") != ev.get("b") or "a" not in ev:
-                pass        # TLC judges
             chk.distinct_keys.add(hash(line))
         else:
             chk.distinct_keys.add(hash(line[:400]))
@@ -351,7 +350,7 @@ def run(prop, args):
     scripts, metas = {}, {}
 
     def reg(name, lines, keyline, flavour, module):
-        scripts[name] = [keyline] + lines
+        scripts[name] = [keyline, "R " + name] + lines
         metas[name] = {"flavour": flavour, "module": module}
 
     cls3 = [6, 6, 0]
@@ -440,6 +439,8 @@ def run(prop, args):
                         xmx="6g")
     save_scripts(chk, scripts, metas)
 
+    if not args.keep and not chk.violations:
+        shutil.rmtree(wd, ignore_errors=True)
     chk.extra["rule"] = ("a case is one logged API call (batched events count once); distinct = distinct (call, result, "
                          "table dump, mru order, freeze) on the small table, distinct drawing case / batched event otherwise")
     chk.assumptions += [
